@@ -157,9 +157,9 @@ impl Prop for C09 {
                 let hdr = if keym { 132 } else { 36 };
                 let (input, label) = if get(c, "how") == "prefix" { let cut = getn(c, "cut").min(file.len()); (file[..cut].to_vec(), format!("prefix{}", cut)) }
                     else { let how = getn(c, "m"); (mutate_file(&mut rng, &file, how, hdr), format!("mut{}", how)) };
-                let base = crate::alloc::reset();
+                let base = kalloc::alloc::reset();
                 let r = if keym { imp::key_decrypt(&rk, &rpk, &input, &NOSCRIPT) } else { imp::pass_decrypt(&pw, &input, &NOSCRIPT) };
-                let peak = crate::alloc::peak_since(base);
+                let peak = kalloc::alloc::peak_since(base);
                 let mr = parse_stream(&if keym { m.ask(&format!("key_decrypt {} {} {} - - -", hex(&rk), hex(&rpk), hexd(&input))) } else { m.ask(&format!("pass_decrypt {} {} - - -", hex(&pw), hexd(&input))) });
                 o.impl_obs = format!("{} out={}B", r.res, r.out.len()); o.model_obs = format!("{} out={}B", imp::canon(&mr.res), mr.out.len()); o.validated += 1;
                 o.nontrivial = Some(format!("{}/{}/{}/{}", surface, label, input.len(), r.res));
@@ -242,9 +242,9 @@ impl Prop for C09 {
                 let mut input = file[..hdr + 16].to_vec();
                 let l: u32 = *rng.pick(&[65536u32, 65537, 0xffff_ffff, 0x7fff_ffff, 1 << 30]);
                 input[hdr + 12..hdr + 16].copy_from_slice(&l.to_be_bytes());
-                let base = crate::alloc::reset();
+                let base = kalloc::alloc::reset();
                 let r = if keym { imp::key_decrypt(&rk, &rpk, &input, &NOSCRIPT) } else { imp::pass_decrypt(&pw, &input, &NOSCRIPT) };
-                let peak = crate::alloc::peak_since(base); let one = crate::alloc::max_single();
+                let peak = kalloc::alloc::peak_since(base); let one = kalloc::alloc::max_single();
                 o.impl_obs = format!("{} peak_heap={} largest_alloc={} claimed_len={}", r.res, peak, one, l);
                 o.nontrivial = Some(format!("heap/{}/{}", keym, l));
                 let bound = if keym { 1 << 20 } else { 48 << 20 };
